@@ -132,3 +132,22 @@ Proof.
   - destruct (split_on c u "") as [|b t] eqn:S; [exfalso; exact (split_on_nonempty c u "" S)|]. now exists acc, b, t.
   - simpl in H. apply IH. exact H.
 Qed.
+
+(* ---------- laws restated in Properties/MINIPY.v ---------- *)
+Lemma return_stops r e rest : exec_block r (SReturn e :: rest) = exec_block r [SReturn e].
+Proof. rewrite !exec_block_cons, exec_return. destruct (eval r e); reflexivity. Qed.
+
+Lemma for_unfold r x it body v l :
+  eval r it = Ok (VL (v :: l)) ->
+  exec r (SFor x it body) =
+  match exec_block (assign x v r) body with
+  | Err z => Err z
+  | Ok (r', Some w) => Ok (r', Some w)
+  | Ok (r', None) => iter_list (fun v r => exec_block (assign x v r) body) l r'
+  end.
+Proof. intros H. rewrite exec_for, H. reflexivity. Qed.
+
+Lemma comprehension_local r y body x it cond rest v :
+  eval r (EComp body x it cond) = Ok v ->
+  exec_block r (SAssign y (EComp body x it cond) :: rest) = exec_block (assign y v r) rest.
+Proof. intros H. rewrite exec_block_cons, exec_assign, H. reflexivity. Qed.
